@@ -86,6 +86,9 @@ def parse(expr: str):
         elif scanner.eat(Operator.RightParenthesis):
             priority -= 10
 
+            if priority < 0:
+                raise MathExpressionException('Unmatched ")"', scanner)
+
             if expected & ParserState.NullaryCall:
                 tokens.append(nullary)
             elif (expected & ParserState.RParen) == 0:
